@@ -1266,7 +1266,7 @@ package_info slice =
   let Append<T>: []T->[]T->[]T
   let Sort<T>: []T->[]T
   let Distinct<T>: []T->[]T
-  let Zip<T, U>: []T->[]U->[]T*U
+  let Zip<T, U>: []T->[]U->[](T*U)
 
 package_info strings =
   let Concat: string->[]string->string
